@@ -23,7 +23,7 @@ from pyvc import core as C
 from pyvc import tensor as T
 from pyvc.core import INT, REAL, VAL, NamedTupleType, NDArr, Obj, Sym, band
 from pyvc.lib.builtins_model import deep_copy
-from pyvc.lib.nnx_model import leaf_nets, mk_net
+from pyvc.lib.nnx_model import leaf_nets, leaf_vars, mk_net, mk_variable
 from pyvc.runner import Task
 
 from . import buffers as B
@@ -183,7 +183,14 @@ def h_multitask_default_pickling(E):
 
 # ---------------------------------------------------------------- modules
 def _params(m):
-    return [(n.name, n.fields["$params"].z) for n in leaf_nets(m)]
+    """every variable of the module: trainable parameters of the leaf networks AND non-Param nnx.Variables"""
+    return [(n.name, n.fields["$params"].z) for n in leaf_nets(m)] + [(v.name, v.fields["$value"].z) for v in leaf_vars(m)]
+
+
+def _tanh_policy(E, name):
+    """a policy head as the library builds it: a network plus two plain (non-Param) nnx.Variables"""
+    return E.new_obj("rl_blox.blox.function_approximator.policy_head.DeterministicTanhPolicy", name=name, policy_net=mk_net(E, f"{name}.policy_net", 2),
+                     action_scale=mk_variable(E, f"{name}.action_scale"), action_bias=mk_variable(E, f"{name}.action_bias"))
 
 
 def mk_pickle_task(device):
@@ -236,6 +243,18 @@ def h_orbax(E):
     (E.st.ok if ok2 else E.st.fail)("restore_checkpoint.merges_saved_state_with_given_models_graphdef", *([] if ok2 else ["restored parameters differ from the saved ones"]))
     same_b = restored is not b
     (E.st.ok if same_b else E.st.fail)("restore_checkpoint.returns_new_module", *([] if same_b else ["returned the template module itself"]))
+    # a module that also holds non-Param variables (the tanh policy heads of DDPG / TD3 / TD7 / SAC / MR.Q): the
+    # checkpoint must carry EVERY variable, or the reload differs from (or cannot be merged into) the saved module
+    pa, pb = _tanh_policy(E, "policy_a"), _tanh_policy(E, "policy_b")
+    want = _params(pa)
+    n_ev = len(ck.fields["$events"])
+    E.call(E.getattr(lg, "save_model"), "ckpt/policy_1", pa)
+    saves = [e for e in ck.fields["$events"][n_ev:] if e[0] == "save"]
+    ok = len(saves) == 1 and isinstance(saves[0][3], StateVal) and len(saves[0][3].entries) == len(want) and all(z3.eq(x[1], y[1]) for x, y in zip(saves[0][3].entries, want))
+    (E.st.ok if ok else E.st.fail)("save_model.saves_every_variable_of_the_model[tanh policy head]", *([] if ok else [f"{len(saves[0][3].entries) if saves and isinstance(saves[0][3], StateVal) else '?'} of {len(want)} variables saved"]))
+    kind, rest = E.call_catch("rl_blox.blox.probabilistic_ensemble.restore_checkpoint", "ckpt/policy_1", pb)
+    ok = kind == "ok" and isinstance(rest, Obj) and len(_params(rest)) == len(want) and all(z3.eq(x[1], y[1]) for x, y in zip(want, _params(rest)))
+    (E.st.ok if ok else E.st.fail)("restore_checkpoint.reloads_every_variable[tanh policy head]", *([] if ok else [f"restore {kind}: {rest if kind != 'ok' else 'variables differ'}"[:200]]))
     E.oblige("canary.orbax", C.compare("==", 1, 0), assume_after=False)
 
 
